@@ -239,6 +239,7 @@ func genC02(w *World, res *CheckResult) {
 	genInRange(w, res)
 	genInArray(w, res)
 	genConstRange(w, res)
+	genConstExpr(w, res)
 	verifyInit(w, res, "optimizer")
 	genPipelineOrder(w, res)
 	genRewritesThroughPatch(w, res)
